@@ -240,6 +240,14 @@ def _lookup_transform(g, rng, k):
     nd = len(g.dims_of(j))
     nm = g.name("t")
     dim = nm if rng.random() < 0.6 else [nm, g.labels_for(len(table), "str")]
+    try:
+        ones = [(d, l) for d, l in g.dims_of(j) if l is not None and len(l) == 1 and all(isinstance(x, (int, str)) for x in l)]
+    except Exception:
+        ones = []
+    if ones and rng.random() < 0.5:
+        # the action handed back already carries the dimension (one label): nothing to add, only the closing squeeze
+        d1, l1 = rng.choice(ones)
+        table, dim = [j], [d1, list(l1)]
     axis = rng.randint(0, nd) if rng.random() < 0.8 else 0
     g.push({"op": "transform", "a": k, "func": "lookup", "r": table, "params": list(range(len(table))), "dim": dim, "axis": axis})
     # the actions handed back are used again afterwards
@@ -827,6 +835,11 @@ def _witnesses():
         # func hands back an action built before (not the receiver): several parameters / one parameter
         {"stmts": [S, T, {"op": "transform", "a": 0, "func": "lookup", "r": [1, 1], "params": [0, 1], "dim": "t", "axis": 0}], "internal": [], "vseed": 0, "float": False},
         {"stmts": [S, T, {"op": "transform", "a": 0, "func": "lookup", "r": [1], "params": [0], "dim": ["t", ["x"]], "axis": 0}], "internal": [], "vseed": 0, "float": False},
+        # … and an action that ALREADY carries the transform's dimension with one label: nothing is added, the closing squeeze
+        # of a one-parameter transform must work on a new object (the handed-back action is used again afterwards)
+        {"stmts": [S, {"op": "source", "dims": [["t", ["x"]], ["d0", [0, 10]]], "base": 4},
+                   {"op": "transform", "a": 0, "func": "lookup", "r": [1], "params": [0], "dim": ["t", ["x"]], "axis": 0},
+                   {"op": "map", "a": 1, "fn": "neg"}], "internal": [], "vseed": 0, "float": False},
         # the same callable with one output and with two outputs (yields)
         {"stmts": [S, {"op": "map", "a": 0, "fn": "neg"}, {"op": "map", "a": 0, "fn": "neg", "yields": ["y", [0, 1]]}], "internal": [], "vseed": 0, "float": False},
         # statics whose repr hides the difference (2000-element arrays that differ at index 1000) / shows an address
